@@ -113,6 +113,17 @@ class _RefResolver(jsonschema.RefResolver):
         raise RuntimeError(f'Missing local schema with URI `{uri}`')
 
 
+# JSON schema draft 7 considers a number with a zero fractional part
+# (for example, `8.0`) to be an integer, but a YAML float is never a valid
+# barectf integer (size, alignment, length, and the rest): this validator
+# class only accepts `int` objects as integers.
+_JsonSchemaValidator = jsonschema.validators.extend(
+    jsonschema.Draft7Validator,
+    type_checker=jsonschema.Draft7Validator.TYPE_CHECKER.redefine(
+        'integer',
+        lambda checker, instance: isinstance(instance, int) and not isinstance(instance, bool)))
+
+
 # Not all static type checkers support type recursion, so let's just use
 # `Any` as a map node's value's type.
 _MapNode = MutableMapping[str, Any]
@@ -177,7 +188,7 @@ class _SchemaValidator:
                                 store=self._store)
 
         # create a JSON schema validator using this reference resolver
-        validator = jsonschema.Draft7Validator(schema, resolver=resolver)
+        validator = _JsonSchemaValidator(schema, resolver=resolver)
 
         # Validate the instance, converting its
         # `collections.OrderedDict` objects to `dict` objects so as to
